@@ -139,6 +139,10 @@ pub fn err_signature(e: &RainDBError) -> String {
 }
 
 pub fn show_key(k: &[u8]) -> String {
+    if k.len() > 48 {
+        // huge keys: head, length and tail identify them
+        return format!("{}..(len {})..{}", show_key(&k[..12]), k.len(), show_key(&k[k.len() - 8..]));
+    }
     if k.iter().all(|b| b.is_ascii_graphic()) {
         format!("{:?}", String::from_utf8_lossy(k))
     } else {
